@@ -463,6 +463,7 @@ type Contract struct {
 	Assumes  []*Clause // assumed at entry (established by the runtime that invokes the function), not an obligation of module callers
 	Ensures  []*Clause
 	LoopInv  []*Clause
+	LoopBack []*Clause // loop <k> backedge requires
 	Modifies []string
 	HasMod   bool
 	Safety   bool
@@ -778,6 +779,8 @@ func (sp *Specs) parseSpecText(pkg, file, text string) {
 					c.Ensures = append(c.Ensures, cl)
 				case "invariant":
 					c.LoopInv = append(c.LoopInv, cl)
+				case "backedge":
+					c.LoopBack = append(c.LoopBack, cl)
 				case "panics":
 					c.Panics = append(c.Panics, cl)
 				case "assert":
@@ -797,6 +800,14 @@ func (sp *Specs) parseSpecText(pkg, file, text string) {
 			mk("panics", "")
 		case "loop":
 			f := strings.Fields(rest)
+			if len(f) >= 4 && f[1] == "backedge" && f[2] == "requires" {
+				// loop <k> backedge requires [label] <expr>: holds at the end of every iteration
+				// (evaluated where the body jumps back to the header, with the body's locals in scope)
+				loop := f[0]
+				rest = strings.TrimSpace(strings.TrimPrefix(strings.TrimSpace(strings.TrimPrefix(strings.TrimSpace(strings.TrimPrefix(rest, loop)), "backedge")), "requires"))
+				mk("backedge", loop)
+				continue
+			}
 			if len(f) < 3 || f[1] != "invariant" {
 				errf(l.n, "loop <k> invariant <expr>")
 				continue
